@@ -68,7 +68,11 @@ def family(kind, par, N):
     raise KeyError(kind)
 
 
-def solve_case(N, bx, r, eps, f_u, density=None):
+class Horizon(Exception):
+    """the batch of pre-iterations ran into the resolution horizon (C03 known finding): nothing to judge for C01"""
+
+
+def solve_case(N, bx, r, eps, f_u, density=None, pre=0):
     lo, up = box(bx, N)
     lo_a = np.array(lo)
     w = np.array(up) - lo_a
@@ -76,6 +80,13 @@ def solve_case(N, bx, r, eps, f_u, density=None):
     rec = Recorder(on_iter=lambda pts, sol: order.extend((p.GetX(), p.GetZ()) for p in pts))
     cfg = dict(N=N, box=bx, r=r, eps=eps, itersLimit=LIMIT, density=density)
     run = tree.make_run(cfg, lambda k, y: f_u((y - lo_a) / w), listeners=[rec])
+    if pre:
+        try:
+            run.step(pre)          # the iterations may be started through the step-wise API and finished by Solve
+        except BaseException:
+            if tree._horizon(run, cfg):
+                raise Horizon()
+            raise
     sol = run.solve()
     return run, sol, order
 
@@ -86,11 +97,18 @@ def judge(N, r, eps, L, fstar, sol, order, m):
     if not (sol.solutionAccuracy < eps and n < LIMIT):
         return "no_accuracy_stop", None, None
     ref = RefAGP(N, r)
-    for x, z in order:
+    k0 = None
+    for k, (x, z) in enumerate(order):
+        if k0 is None and ref.trials:
+            j = ref.interval_of(x)
+            if j is not None and ref.hold(ref.xs[j - 1], ref.xs[j]) < eps:
+                k0 = k       # first trial (0-based) that subdivided an interval shorter than eps
         ref.add(x, z)
-    if len(ref.M_hist) < 2:
+    if len(ref.M_hist) < 2 or k0 is None or k0 < 1:
         return "too_short", None, None
-    M_fin, M_dec = ref.M_hist[-1], ref.M_hist[-2]
+    # M in force when that interval was chosen (for a plain Solve it is the last trial; when iterations were made in
+    # batches before Solve the search may have gone on past it - the bound then follows from that earlier moment)
+    M_fin, M_dec = ref.M_hist[-1], ref.M_hist[k0 - 1]
     best = sol.bestTrials[0].functionValues[0].value
     bound = (r * M_fin / 2.0) * eps + grid_term(N, L, m)
     gap = best - fstar
@@ -111,7 +129,9 @@ def family_case(task):
     m = task.get("density") or 10
     f, L, fstar = family(kind, par, N)
     try:
-        run, sol, order = solve_case(N, bx, r, eps, f, task.get("density"))
+        run, sol, order = solve_case(N, bx, r, eps, f, task.get("density"), task.get("pre", 0))
+    except Horizon:
+        return "resolution_horizon", None, None, 0
     except BaseException as e:
         return "error", f"Solve raised {type(e).__name__}: {e}", None, 0
     st, msg, ratio = judge(N, r, eps, L, fstar, sol, order, m)
@@ -127,25 +147,44 @@ def family_chunk(tasks):
 def adversary_case(task):
     L, r, eps, default, dev = task["L"], task["r"], task["eps"], task["default"], dict(task["dev"])
     pts = []
+    import bisect
+    sx, sz = [], []      # the answers sorted by x (for the neighbour form of the envelope)
 
     def answer(k, y):
         x = float(y[0])
         if not pts:
             z = 0.0
         else:
-            lo = max(zz - L * abs(x - xx) for xx, zz in pts)
-            hi = min(zz + L * abs(x - xx) for xx, zz in pts)
+            # answers are mutually L-consistent, so the tightest constraints at x come from the nearest answered
+            # point on each side; the full form over all points is used (and compared) while the history is short
+            i = bisect.bisect_left(sx, x)
+            nb = [(sx[j], sz[j]) for j in (i - 1, i) if 0 <= j < len(sx)]
+            lo = max(zz - L * abs(x - xx) for xx, zz in nb)
+            hi = min(zz + L * abs(x - xx) for xx, zz in nb)
+            if len(pts) <= 400:
+                lo_f = max(zz - L * abs(x - xx) for xx, zz in pts)
+                hi_f = min(zz + L * abs(x - xx) for xx, zz in pts)
+                if abs(lo - lo_f) > 1e-12 * max(1.0, abs(lo_f)) or abs(hi - hi_f) > 1e-12 * max(1.0, abs(hi_f)):
+                    raise RuntimeError("harness: neighbour envelope differs from the full envelope")
+                lo, hi = lo_f, hi_f
             s = dev.get(k, default)
             z = {"lo": lo, "hi": hi, "mid": 0.5 * (lo + hi)}[s]
         pts.append((x, z))
+        i = bisect.bisect_left(sx, x)
+        sx.insert(i, x)
+        sz.insert(i, z)
         return z
     order = []
     rec = Recorder(on_iter=lambda p, sol: order.extend((q.GetX(), q.GetZ()) for q in p))
     cfg = dict(N=1, box="B0", r=r, eps=eps, itersLimit=LIMIT)
     run = tree.make_run(cfg, answer, listeners=[rec])
     try:
+        if task.get("pre"):
+            run.step(task["pre"])
         sol = run.solve()
     except BaseException as e:
+        if tree._horizon(run, cfg):
+            return "resolution_horizon", None, None, 0
         return "error", f"Solve raised {type(e).__name__}: {e}", None, 0
     p = sorted(pts)
     worst = min(z for _, z in p)
@@ -174,6 +213,12 @@ def plan_families(ctx):
                 for L in (0.4, 1.0, 3.0, 10.0):
                     tasks.append(dict(N=1, box="B0" if slopes[0] >= 0 else "B1", r=r, eps=eps, kind="zig",
                                       par=[list(slopes), L]))
+    # the same zig-zags with the first iterations made through DoGlobalIteration(n) before Solve
+    for slopes in itertools.product((-1, 0, 1), repeat=5):
+        for pre in (12, 40):
+            for eps in (0.01, 0.001):
+                for L, r in ((1.0, 2.0), (3.0, 3.5), (10.0, 8.0)) if th else ((3.0, 3.5),):
+                    tasks.append(dict(N=1, box="B0", r=r, eps=eps, kind="zig", par=[list(slopes), L], pre=pre))
     lat = (0.0, 1.0 / 3.0, 0.5, 1.0)
     epsN = {1: (0.1, 0.01), 2: (0.1, 0.03), 3: (0.2, 0.1), 4: (0.3, 0.2), 5: (0.3, 0.2)}
     if th:
@@ -247,6 +292,19 @@ def plan_adversary(ctx):
                                     for q in range(j + 1, 10) for a in others for c in others for e in others]
                     for dv in devsets:
                         tasks.append(dict(L=L, r=r, eps=eps, default=default, dev=[list(d) for d in dv]))
+                    # iterations started through the step-wise API (one batch), finished by Solve
+                    for pre in (10, 30, 60):
+                        for dv in devsets[: 1 + 2 * (H - 2)]:
+                            tasks.append(dict(L=L, r=r, eps=eps, default=default, dev=[list(d) for d in dv], pre=pre))
+    # the deep end: accuracy far below the coarse grid, thousands of trials, M and the optimum at rest for long stretches
+    for L, r in ((2.0, 4.5), (1.0, 2.0)) + (((0.4, 3.5),) if th else ()):
+        for eps in (1.5 * 2.0 ** -13,) + ((1.5 * 2.0 ** -14,) if th else ()):
+            for default in S:
+                others = [s for s in S if s != default]
+                tasks.append(dict(L=L, r=r, eps=eps, default=default, dev=[]))
+                for i in ((5, 40, 300) if th else (40,)):
+                    for a in others:
+                        tasks.append(dict(L=L, r=r, eps=eps, default=default, dev=[[i, a]]))
     return tasks
 
 
@@ -273,7 +331,8 @@ def run(ctx):
         if msg:
             t = ftasks[i]
             res.add_violation(dict(driver="family", **t, message=f"N={t['N']} box={t['box']} {t['kind']}{t['par']}: {msg}", sig={}))
-    ach = chunks(atasks, 200)
+    atasks.sort(key=lambda t: t["eps"])      # the deep runs first
+    ach = [[t] for t in atasks if t["eps"] < 1e-3] + chunks([t for t in atasks if t["eps"] >= 1e-3], 200)
     aout = [x for ch in pmap(adversary_chunk, ach) for x in ch]
     acounts = {}
     aworst = 0.0
